@@ -15,7 +15,8 @@ EXPLANATION = (
     "writes visible unless deleted; (R6) the session passes its (start epoch, tx id) context to the planner and to the "
     "versioned accessors, and the context of an open transaction is its start epoch; (R7) the session's point lookups and "
     "neighbour listings reach the store only through versioned accessors; (R8) every context-aware operator consumes its "
-    "(epoch, tx id) in the versioned store calls it makes. It does not execute any read.")
+    "(epoch, tx id) in the versioned store calls it makes. (R9) every call that hands a transaction context on takes the viewing epoch from the same context as the transaction id. "
+    "It does not execute any read.")
 ASSUMPTIONS = [
     "virtual calls are linked by rapid type analysis from the session entry points (operator types the planners construct)",
     "statistics / cardinality estimation are advisory and exempt from the clock rule (they feed the optimizer only, C09)",
